@@ -284,6 +284,8 @@ def run(prog, st0, entry=0, entry_points=None):
     cur = None
 
     def route(label, s, i):
+        if s.pc is False:
+            return
         if label in prog.labels:
             t = prog.labels[label]
             if t <= i:
@@ -314,6 +316,8 @@ def run(prog, st0, entry=0, entry_points=None):
             tk.pc = b_and(cur.pc, c)
             cur.pc = b_and(cur.pc, b_not(c))
             route(eff[2], tk, i)
+            if cur.pc is False:
+                cur = None
         elif k == 'ijmp':
             t = eff[1]
             matched = []
@@ -336,12 +340,14 @@ def run(prog, st0, entry=0, entry_points=None):
                     continue
                 s = cur.copy()
                 s.pc = b_and(cur.pc, c)
-                pending.setdefault(idx, []).append(s)
+                if s.pc is not False:
+                    pending.setdefault(idx, []).append(s)
                 matched.append(c)
             rest = cur
             rest.pc = b_and(cur.pc, b_not(b_or(*matched)))
             rest.aux['<target>'] = t
-            exits.setdefault('<computed>', []).append(rest)
+            if rest.pc is not False:
+                exits.setdefault('<computed>', []).append(rest)
             cur = None
         elif k == 'ret':
             exits.setdefault('<ret>', []).append(cur)
